@@ -45,6 +45,10 @@ counts reduce to these because the counter only meets constants): if every posit
 find_if it implements; if positions are skipped or lie outside the range it is reported as such (search-skips-elements).
 getParam: a typed read guarded by a test of another member of the parameter (a cached type) instead of the stored value is a
 violation; a test of the stored value in another form is undecided.  removeParam must erase the entry it found.
+at() written as its own search loop (range-for / iterator loop returning from inside, throw after it) is summarised as
+`L = find_if(...); L == end ? <after the loop> : <inside>` and held to the same specification; a reference returned into a
+converted copy of the element (a loop variable of a different pair type) is a violation.  erase(lookup(key)) without the end()
+test is a violation.  getParam is judged relative to the findParam call it makes.
 Lookup predicates: `a.compare(b) == 0` is `a == b`; a strncmp over the length of one operand is a prefix comparison
 (recognised wrong); predicates built from other calls are undecided.  setParam leaves the query flag of the parameter
 it writes alone.
@@ -649,6 +653,7 @@ def check_flatmap(ctx, tu, tag=''):
         file = tu.fn_file(fns[0])
         keyexpr0 = ('field', ('lparam', 0), 'first')
         byname = {}
+        role_ok = set()
         for f in fns:
             byname.setdefault(last(strip_targs(f['q'])), []).append(f)
         for f in fns:
@@ -676,7 +681,49 @@ def check_flatmap(ctx, tu, tag=''):
                     und.append(('unexpected-mutation', '%s hands mutable iterators of the sequence to `%s`, whose effect is not known'
                                 % (what, tu.show(evs[0][2].node))))
 
-            if name == 'at':
+            shape = None
+            if name == 'at' and paths and all(seq.lookup_cond(p_) is None for p_ in paths):
+                shape = se.function_search_shape(f)     # at() written as its own search loop
+            if name == 'at' and shape is not None:
+                n3 += 1
+                strip_copy = lambda x: se._subst(x, {}) if False else x
+
+                def uncopy(x):
+                    # a converted copy of an element has the element's members: transparent for comparisons only
+                    if isinstance(x, tuple):
+                        if len(x) == 3 and x[0] == 'construct' and str(x[1]).startswith('std::pair<'):
+                            return uncopy(x[2])
+                        return tuple(uncopy(y) for y in x)
+                    return x
+                if shape['first'] != vbegin(S) or shape['last'] != vend(S):
+                    und.append(('search-range', 'at() searches [%s, %s), not the whole sequence' % (show(shape['first']), show(shape['last']))))
+                b_ = uncopy(shape['body'])
+                if isinstance(b_, tuple) and b_[0] == 'eq':
+                    a_, k_ = (b_[1], b_[2]) if contains(b_[1], ('lparam', 0)) else (b_[2], b_[1])
+                    report_mismatch(lookup_mismatch(a_, k_, keyexpr0, p0), probs, und)
+                else:
+                    und.append(('search-predicate', 'the search predicate `%s` is not a key comparison' % show(shape['body'])))
+                if shape['end'][0] != 'throw':
+                    probs.append(('no-throw', 'when no element matches at() does not throw (it %ss)' % shape['end'][0]))
+                elif shape['end'][1] != 'std::out_of_range':
+                    probs.append(('wrong-exception', 'when no element matches at() throws %s instead of std::out_of_range' % shape['end'][1]))
+                mk_, mv_ = shape['match']
+                want_m = ('field', ('deref', ('cursor',)), 'second')
+                if mk_ != 'return':
+                    probs.append(('throws-when-found', 'at() does not return on the path where the key was found'))
+                elif mv_ != want_m:
+                    copies = find_all(mv_, lambda t: len(t) == 3 and t[0] == 'construct' and contains(t[2], ('cursor',)))
+                    if uncopy(mv_) == want_m and copies and f['fty'].split('(')[0].strip().endswith('&'):
+                        probs.append(('returns-reference-to-temporary',
+                                      'at() returns a reference to `.second` of a temporary `%s` converted from the stored element (the loop variable binds '
+                                      'to a converted copy, not to the element): the reference dangles when the loop body is left and never designates '
+                                      'the stored value' % copies[0][1]))
+                    else:
+                        (und if has_unknown(mv_) or copies else probs).append(
+                            ('wrong-element', 'the found path returns `%s` instead of the found element\'s .second' % show(mv_)))
+                for p in paths:
+                    no_effects(p, 'at()')
+            elif name == 'at':
                 n3 += 1
                 for p in paths:
                     lc = seq.lookup_cond(p)
@@ -823,7 +870,16 @@ def check_flatmap(ctx, tu, tag=''):
                             if len(evs) != 1 or evs[0][1] != 'erase' or [unver(a) for a in evs[0][2].value] != [L]:
                                 probs.append(('erase-not-found-iterator', 'erase of a present key does not erase exactly the found iterator'))
                     else:
-                        und.append(('erase-shape', 'erase is neither stable_partition/remove_if + truncation nor a guarded single-iterator erase'))
+                        single = [x for x in evs if x[0] == 'member' and x[1] == 'erase' and len(x[2].value or ()) == 1
+                                  and seq.match_lookup(unver(x[2].value[0])) is not None]
+                        if single and len(evs) == 1 and not any(contains(unver(c_), S) for c_, _p, _n in p.conds):
+                            m_ = seq.match_lookup(unver(single[0][2].value[0]))
+                            want_lookup(unver(single[0][2].value[0]), m_[1], m_[0])
+                            probs.append(('erase-unguarded',
+                                          '`%s` erases the result of the lookup without comparing it with end(): for a key that is not in the map this '
+                                          'is vector::erase(end()), which is undefined (erasing an absent key must be a no-op)' % tu.show(single[0][2].node)))
+                        else:
+                            und.append(('erase-shape', 'erase is neither stable_partition/remove_if + truncation nor a guarded single-iterator erase'))
             elif name in ('clear', 'reserve'):
                 n3 += 1
                 for p in paths:
@@ -874,6 +930,7 @@ def check_flatmap(ctx, tu, tag=''):
                 for kind, why in sorted(set(und)):
                     ctx.undecided(R3, inst, why, loc)
             else:
+                role_ok.add(id(f))
                 ctx.ok(R3, inst, sig_show(summary_sig(se, seq, f))[:300], loc)
         # ---- byte-wise key comparison: equality of the object representation is key equality only for some key types
         if seq.bytewise:
@@ -913,7 +970,10 @@ def check_flatmap(ctx, tu, tag=''):
             base = sigs[0]
             diff = [x for x in sigs[1:] if x[1] != base[1]]
             if diff and any(find_all(tuple(sg), lambda t: t and t[0] in ('var', 'opaque')) for _f, sg in sigs):
-                ctx.undecided(R4, inst, 'the summaries contain local state that cannot be compared across the overloads', tu.fn_loc(fs[0]))
+                if all(id(f_) in role_ok for f_, _sg in sigs):
+                    ctx.ok(R4, inst, 'written differently (one as its own loop), each decided to conform to the same specification (R-C10-3)', tu.fn_loc(fs[0]))
+                else:
+                    ctx.undecided(R4, inst, 'the summaries contain local state that cannot be compared across the overloads', tu.fn_loc(fs[0]))
             elif diff:
                 g = diff[0]
                 ctx.violation(R4, inst, '`%s` and `%s` disagree: {%s} vs {%s}' % (inst_name(base[0]), inst_name(g[0]), sig_show(base[1])[:300], sig_show(g[1])[:300]),
@@ -1135,7 +1195,10 @@ def check_paramobj(ctx, tu, tag=''):
         elif name == 'getParam':
             n5 += 1
             T = (f.get('targs') or ['?'])[0]
-            P = finder_call(0)
+            # the finder call this getParam makes (with the inserting flag it is reported as such; the rest is judged relative to it)
+            flags = {unver(ev.value[1]) for p_ in paths for ev in find_calls(p_) if ev.value and len(ev.value) == 2}
+            gflag = 1 if flags == {('const', 1)} else 0
+            P = finder_call(gflag)
             obj = ('deref', P)
             qplace = ('field', obj, QUERY)
             dplace = ('field', obj, DATA)
@@ -1146,13 +1209,14 @@ def check_paramobj(ctx, tu, tag=''):
                 for ev in fc:
                     a = [unver(x) for x in (ev.value or ())]
                     if len(a) == 2 and a[1] == ('const', 1):
-                        probs.append(('read-inserts', 'getParam calls findParam(name, true): reading a parameter creates it'))
+                        probs.append(('read-inserts', 'getParam calls findParam(name, true): reading a name that is not set creates an (empty) entry for it - '
+                                      'hasParam is true afterwards and the entry takes a place in the parameter order, although nothing was inserted'))
                     elif len(a) != 2 or a[0] != p0 or a[1] != ('const', 0):
                         und.append(('finder-args', 'findParam is called with `%s`' % ', '.join(show(x) for x in a)))
                 stores = [ev for ev in p.events if ev.kind == 'store']
                 qstores = [ev for ev in stores if ev.nf == qplace]
                 other_stores = [ev for ev in stores if ev.nf != qplace and ev.place is None]
-                nonnull = p.cond_of(mk_eq(('null',), P)) is False
+                nonnull = p.cond_of(mk_eq(('null',), P)) is False or gflag == 1     # findParam(name, true) never yields null (decided above)
                 typed = p.cond_of(is_t) is True
                 rv = unver(p.term[1]) if p.term[0] == 'return' and p.term[1] is not None else None
                 uses_get = rv is not None and bool(find_all(rv, lambda t: t[0] == 'call' and isinstance(t[1], str) and t[1].startswith(ANY + '::get')))
